@@ -294,6 +294,55 @@ func clusterHandlerRouting(c *rt.Ctx, nkeys int) {
 				}
 			}
 		}
+		// the entry lives on exactly one node, the one the handler's ring names
+		for i := 0; i < nkeys && moved == 0; i++ {
+			k := fmt.Sprintf("ck:%d:%x", i, i*40503)
+			var on []string
+			for a, st := range stores {
+				if st.Lookup(k) != nil {
+					on = append(on, a)
+				}
+			}
+			want := hA.Continuum.Hash([]byte(k)).Label()
+			if len(on) != 1 || on[0] != want {
+				c.Violation("C19 cluster-handler-placement", fmt.Sprintf("%d nodes: key %q is stored on %v, the ring names %s", n, k, on, want), map[string]interface{}{"labels": addrs, "key": k})
+				break
+			}
+		}
+		// multi-key gets: where a key is looked up must not depend on its neighbours in the request
+		// or on whether they hit (present keys around a key that was never stored, duplicates)
+		bad := 0
+		for i := 1; i < nkeys && moved == 0 && bad == 0; i++ {
+			ki, kp := fmt.Sprintf("ck:%d:%x", i, i*40503), fmt.Sprintf("ck:%d:%x", i-1, (i-1)*40503)
+			vi, vp := fmt.Sprintf("v%d", i), fmt.Sprintf("v%d", i-1)
+			mi := fmt.Sprintf("never:%d:%x", i, i*7919)
+			val := map[string]string{ki: vi, kp: vp}
+			for _, req := range [][]string{{ki, mi, ki}, {mi, ki, kp}, {kp, mi, ki, kp}, {ki, kp, mi, mi, ki}} {
+				for hi, h := range []cluster.Handler{hA, hB, hC} {
+					r := CallHandler(h, wire.Op{Kind: "mget", Keys: req})
+					c.Eval(1)
+					wantHits, wantMiss := 0, 0
+					for _, k := range req {
+						if _, ok := val[k]; ok {
+							wantHits++
+						} else {
+							wantMiss++
+						}
+					}
+					ok := r.Class == "values" && len(r.Hits) == wantHits && r.Misses == wantMiss
+					for _, hit := range r.Hits {
+						if hit.Idx < 0 || hit.Idx >= len(req) || val[req[hit.Idx]] != hit.Val {
+							ok = false
+						}
+					}
+					if !ok && bad == 0 {
+						bad++
+						c.Violation("C19 neighbour-dependent-routing", fmt.Sprintf("%d nodes, connection %d: get of %q returned %s; every key but the never-stored one must hit with its own value: a key was looked up on a node chosen by its neighbours in the request", n, hi, req, r),
+							map[string]interface{}{"labels": addrs, "keys": req})
+					}
+				}
+			}
+		}
 		c.Distinct(fmt.Sprintf("cluster-handler|%d", n))
 		c.Nontrivial(fmt.Sprintf("cluster-handler|%d", n))
 	}
